@@ -88,6 +88,7 @@ class Prop:
     MAX_WORKERS = NCPU
     COQ_SHARD = 400
     CASES_PER_WORKER = 20
+    MIN_CORR_FRACTION = 0.25    # at least this share of the cases must reach the Coq model, else the run decides nothing
     DRIFT_FACTOR = 2            # quick tier generates this many times the cases when an anchored file drifted
     SHRINK_BUDGET_S = 150      # wall-clock budget for shrinking per run (0 disables shrinking)
 
@@ -238,8 +239,16 @@ def proof_obligations(prop: Prop):
     src = os.path.join(COQ_DIR, "theories", prop.PROPS_FILE)
     text = open(src, encoding="utf-8").read()
     names = re.findall(r"^\s*Theorem\s+([A-Za-z0-9_']+)", text, flags=re.M)
+    # theorems.json pins the theorem names of every property: a pinned theorem that disappeared is a broken obligation
+    pinf = os.path.join(VERIF, "theorems.json")
+    pinned = json.load(open(pinf)).get(prop.ID, []) if os.path.exists(pinf) else []
+    missing = [n for n in pinned if n not in names]
     res["theorems"] = names
-    res["obligations"] = len(names)
+    res["obligations"] = len(names) + len(missing)
+    if missing:
+        res["failed"] = missing
+        res["log"] = f"pinned theorems missing from {prop.PROPS_FILE}: {missing}"
+        return res
     gate = grep_gate()
     if gate:
         res["failed"] = names
@@ -539,6 +548,9 @@ def run_check(pid: str, tier: str, seed: int, replay: str | None = None) -> int:
     # model mirrors it; models mirror the code as it is, so any mismatch counts
     if mism:
         broken.append(("correspondence", f"{len(mism)} case(s) where model and implementation differ", ""))
+    if prop.CORR_MODULE and len(terms) < prop.MIN_CORR_FRACTION * max(1, len(cases)):
+        broken.append(("coverage", f"only {len(terms)} of {len(cases)} cases reached the model "
+                                   f"(floor {prop.MIN_CORR_FRACTION:.0%}): the run decides nothing", ""))
     ext_eval = 0
     if broken and violations == 0:
         # extended search for a concrete failing input on the implementation
